@@ -212,6 +212,17 @@ func legA(c *core.Ctx) {
 		c.Add("states", int64(len(e.States)))
 	}
 	alphabet := chunkAlphabet(m, 2)
+	// look-ahead family: the fast paths scan ahead after a newline, a quote, a
+	// first digit and a decimal point; a byte they swallow wrongly only shows
+	// when something follows it in the same buffer, so these openers get
+	// chunks of length 3: opener + every class representative + a follower.
+	for _, first := range []byte{'\n', '"', '1', '.'} {
+		for _, mid := range m.Classes() {
+			for _, last := range []byte{'1', ' ', '"', ']'} {
+				alphabet = append(alphabet, []byte{first, mid, last})
+			}
+		}
+	}
 	// thorough: chunks of length 3 as well, from the states of nesting <= 1 (the
 	// chunk can open at most two more levels; deeper contexts repeat the top two)
 	var alphabet3 [][]byte
